@@ -1,4 +1,4 @@
 // harness TU for R5 (double)
 #define HX_HAS_ROTATION 0
 #include "generic.h"
-namespace hx { void run_R5(const Req& r, Resp& R) { run<manif::R5d>(r, R); } }
+namespace hx { void run_R5(const Req& r, Resp& R) { run<manif::Rn<HX_SC, 5>>(r, R); } }
